@@ -620,7 +620,31 @@ def fresh_observe(script, cfg):
 
 
 # ------------------------------------------------------------------------------ entry point
-def run_c14(script, rng, summary):
+def in_renumber_theorem(driver, script, script2):
+    """do the Lean models of the two scripts meet every hypothesis of `C14_tasks_order_verdict` (the executable test
+    `State.tasksOrderTheoremB`, proved sufficient by `tasksOrderTheoremB_sound`: same task declarations up to their numbers,
+    same workers and requirement log, constraints of corresponding meaning, both inside the exactness fragment, delays
+    below the task numbers)?  Evaluated by the driver on this very pair."""
+    if driver is None:
+        return False
+    try:
+        driver.reset()
+        for d in script:
+            ln = pslib.to_line(d)
+            if ln is not None:
+                driver.send(ln)
+        driver.send("(mark)")
+        driver.reset()
+        for d in script2:
+            ln = pslib.to_line(d)
+            if ln is not None:
+                driver.send(ln)
+        return driver.send_multi("(tasks-order-theorem)")[1] == ["true"]
+    except Exception:  # noqa: BLE001
+        return False
+
+
+def run_c14(script, rng, summary, driver=None):
     from harness import gen
     mode = rng.choice(["rename", "permute", "permute", "history"])
     realA, resA = build(script)
@@ -684,7 +708,15 @@ def run_c14(script, rng, summary):
         for w in what:
             count(summary, "run_c14_permute_" + w)
         summary["nontrivial"].append(key)
+        inside = "task" in what and in_renumber_theorem(driver, script, script2)
+        if inside:
+            # the Lean models of the two declaration orders meet every hypothesis of the theorem (checked by evaluation on
+            # this pair): it guarantees the same verdict and the same admitted schedules for the models
+            count(summary, "run_c14_permute_task_pairs_inside_C14_tasks_order_verdict")
         v = compare_builds(realA, A, realB, B, {}, cmap, script, script2=script2)
+        if inside and isinstance(v, dict):
+            v = dict(v, contradicts="C14_tasks_order_verdict (PS/Theorems/Renumber.lean) for the model of this script: "
+                                    "the real encoder differs from the model on it")
         if v == "unknown":
             count(summary, "run_c14_unknown")
             return None
